@@ -224,7 +224,7 @@ theorem stopJob_k (bs : List Blk) (failed inited : List Nat) (k : Nat) :
   · split <;> rfl
 
 section
-variable (bs : List Blk) (failed inited timers0 oa os : List Nat)
+variable (bs : List Blk) (failed inited started timers0 oa os : List Nat)
 
 /-- the five segments of the clean-up trace -/
 def seg1 : List Ev := oa.map Ev.stop
@@ -236,12 +236,12 @@ def ends : List JobEnd := (awaitJobs none 0 (sortJobs (oa.map (stopJob bs failed
 def seg4 : List Ev :=
   (sortEnds ((ends bs failed inited oa).filter fun e => !immediate bs failed inited e.k)).map
     fun e => Ev.sae e.k (seenRes bs e)
-def seg5 : List Ev := (stopSyncAll bs { timers := timers0, stopped := oa } os).2
+def seg5 : List Ev := (stopSyncAll bs { timers := timers0, stopped := oa, started := started } os).2
 
 theorem stopSblocks_trace :
-    (stopSblocks bs failed inited timers0 oa os).trace =
+    (stopSblocks bs failed inited started timers0 oa os).trace =
       seg1 oa ++ seg2 bs inited oa ++ seg3 bs failed inited oa ++ seg4 bs failed inited oa
-        ++ seg5 bs timers0 oa os := rfl
+        ++ seg5 bs started timers0 oa os := rfl
 
 theorem seg1_evs : stops (seg1 oa) = oa ∧ starteds (seg1 oa) = [] ∧ sabs (seg1 oa) = [] ∧ saes (seg1 oa) = [] := by
   induction oa with
@@ -284,39 +284,39 @@ theorem seg4_evs : stops (seg4 bs failed inited oa) = [] ∧ starteds (seg4 bs f
   refine ((sortJobs_perm _).map _).filter _ |>.trans ?_
   simp [List.map_map, Function.comp_def, stopJob_k]
 
-theorem seg5_evs : stops (seg5 bs timers0 oa os) = os ∧ starteds (seg5 bs timers0 oa os) = [] ∧
-    sabs (seg5 bs timers0 oa os) = [] ∧ saes (seg5 bs timers0 oa os) = [] :=
+theorem seg5_evs : stops (seg5 bs started timers0 oa os) = os ∧ starteds (seg5 bs started timers0 oa os) = [] ∧
+    sabs (seg5 bs started timers0 oa os) = [] ∧ saes (seg5 bs started timers0 oa os) = [] :=
   stopSyncAll_evs ..
 
 theorem stopSblocks_stops :
-    stops (stopSblocks bs failed inited timers0 oa os).trace = oa ++ os := by
+    stops (stopSblocks bs failed inited started timers0 oa os).trace = oa ++ os := by
   rw [stopSblocks_trace]
   simp [(seg1_evs oa).1, (seg2_evs bs inited oa).1, (seg3_evs bs failed inited oa).1,
-    (seg4_evs bs failed inited oa).1, (seg5_evs bs timers0 oa os).1]
+    (seg4_evs bs failed inited oa).1, (seg5_evs bs started timers0 oa os).1]
 
 theorem stopSblocks_starteds :
-    starteds (stopSblocks bs failed inited timers0 oa os).trace = [] := by
+    starteds (stopSblocks bs failed inited started timers0 oa os).trace = [] := by
   rw [stopSblocks_trace]
   simp [(seg1_evs oa).2.1, (seg2_evs bs inited oa).2.1, (seg3_evs bs failed inited oa).2.1,
-    (seg4_evs bs failed inited oa).2.1, (seg5_evs bs timers0 oa os).2.1]
+    (seg4_evs bs failed inited oa).2.1, (seg5_evs bs started timers0 oa os).2.1]
 
 theorem stopSblocks_sabs :
-    sabs (stopSblocks bs failed inited timers0 oa os).trace = oa := by
+    sabs (stopSblocks bs failed inited started timers0 oa os).trace = oa := by
   rw [stopSblocks_trace]
   simp [(seg1_evs oa).2.2.1, (seg2_evs bs inited oa).2.2.1, (seg3_evs bs failed inited oa).2.2.1,
-    (seg4_evs bs failed inited oa).2.2.1, (seg5_evs bs timers0 oa os).2.2.1]
+    (seg4_evs bs failed inited oa).2.2.1, (seg5_evs bs started timers0 oa os).2.2.1]
 
 theorem stopSblocks_saes :
-    (saes (stopSblocks bs failed inited timers0 oa os).trace).Perm oa := by
+    (saes (stopSblocks bs failed inited started timers0 oa os).trace).Perm oa := by
   rw [stopSblocks_trace]
   simp only [saes_append, (seg1_evs oa).2.2.2, (seg2_evs bs inited oa).2.2.2, (seg3_evs bs failed inited oa).2.2.2,
-    (seg5_evs bs timers0 oa os).2.2.2, List.nil_append, List.append_nil]
+    (seg5_evs bs started timers0 oa os).2.2.2, List.nil_append, List.append_nil]
   refine (List.Perm.append_left _ (seg4_evs bs failed inited oa).2.2.2).trans ?_
   exact List.filter_append_perm _ _
 
 theorem stopSblocks_dur (M : Nat) (h : ∀ k ∈ oa, (blk bs k).stopTimeout ≤ M) :
-    (stopSblocks bs failed inited timers0 oa os).dur ≤ M := by
-  have : (stopSblocks bs failed inited timers0 oa os).dur =
+    (stopSblocks bs failed inited started timers0 oa os).dur ≤ M := by
+  have : (stopSblocks bs failed inited started timers0 oa os).dur =
       (awaitJobs none 0 (sortJobs (oa.map (stopJob bs failed inited)))).2.1 := rfl
   rw [this]
   refine (awaitJobs_bound M 0 _ (Nat.zero_le _) ?_).1
@@ -332,8 +332,12 @@ end
 theorem arm_stopped (bs : List Blk) (s : CState) (j : Nat) : (arm bs s j).stopped = s.stopped := by
   unfold arm; split <;> rfl
 
+theorem arm_started (bs : List Blk) (s : CState) (j : Nat) : (arm bs s j).started = s.started := by
+  unfold arm; split <;> rfl
+
+/-- a timer is armed only for a timer block between its start() and its stop() -/
 theorem arm_mem (bs : List Blk) (s : CState) (j x : Nat) (hx : x ∈ (arm bs s j).timers) :
-    x ∈ s.timers ∨ (x = j ∧ (blk bs j).kind = .timer ∧ j ∉ s.stopped) := by
+    x ∈ s.timers ∨ (x = j ∧ (blk bs j).kind = .timer ∧ j ∈ s.started ∧ j ∉ s.stopped) := by
   unfold arm at hx
   split at hx
   · next h =>
@@ -341,26 +345,42 @@ theorem arm_mem (bs : List Blk) (s : CState) (j x : Nat) (hx : x ∈ (arm bs s j
     rcases hx with rfl | ⟨hx, _⟩
     · right
       simp only [Bool.and_eq_true, beq_iff_eq, Bool.not_eq_true', List.contains_eq_mem,
-        decide_eq_false_iff_not] at h
-      exact ⟨rfl, h.1, h.2⟩
+        decide_eq_false_iff_not, decide_eq_true_eq] at h
+      exact ⟨rfl, h.1.1, h.1.2, h.2⟩
     · exact .inl hx
   · exact .inl hx
 
+theorem armAll_started (bs : List Blk) (s : CState) (ks : List Nat) :
+    (armAll bs s ks).started = s.started := by
+  induction ks generalizing s with
+  | nil => rfl
+  | cons k ks ih =>
+    have h1 : armAll bs s (k :: ks) =
+        armAll bs (match (blk bs k).onSuccess with | some j => arm bs s j | none => s) ks := rfl
+    rw [h1, ih]
+    split
+    · exact arm_started ..
+    · rfl
+
 theorem armAll_mem (bs : List Blk) (s : CState) (ks : List Nat) (x : Nat)
     (hx : x ∈ (armAll bs s ks).timers) :
-    x ∈ s.timers ∨ (∃ k ∈ ks, (blk bs k).onSuccess = some x ∧ (blk bs x).kind = .timer) := by
+    x ∈ s.timers ∨ (x ∈ s.started ∧ (blk bs x).kind = .timer) := by
   induction ks generalizing s with
   | nil => exact .inl hx
   | cons k ks ih =>
     simp only [armAll, List.foldl_cons] at hx
-    rcases ih _ hx with h | ⟨k', hk', h⟩
+    rcases ih _ hx with h | ⟨h1, h2⟩
     · split at h
       · next j hj =>
-        rcases arm_mem bs s j x h with h | ⟨rfl, h2, _⟩
+        rcases arm_mem bs s j x h with h | ⟨rfl, h2, h3, _⟩
         · exact .inl h
-        · exact .inr ⟨k, by simp, hj, h2⟩
+        · exact .inr ⟨h3, h2⟩
       · exact .inl h
-    · exact .inr ⟨k', by simp [hk'], h⟩
+    · right
+      refine ⟨?_, h2⟩
+      split at h1
+      · rwa [arm_started] at h1
+      · exact h1
 
 theorem stopSync_stopped (bs : List Blk) (s : CState) (k : Nat) :
     (stopSync bs s k).1.stopped = k :: s.stopped := by
@@ -369,46 +389,46 @@ theorem stopSync_stopped (bs : List Blk) (s : CState) (k : Nat) :
   · split <;> simp [arm_stopped]
   · rfl
 
+theorem stopSync_started (bs : List Blk) (s : CState) (k : Nat) :
+    (stopSync bs s k).1.started = s.started := by
+  unfold stopSync; simp only []
+  split
+  · split <;> simp [arm_started]
+  · rfl
+
 theorem stopSync_timers (bs : List Blk) (s : CState) (k x : Nat)
     (hx : x ∈ (stopSync bs s k).1.timers) :
-    x ≠ k ∧ (x ∈ s.timers ∨ (x ∉ s.stopped ∧ (blk bs k).kind = .outf ∧ (blk bs k).onSuccess = some x
-      ∧ (blk bs x).kind = .timer)) := by
+    x ≠ k ∧ (x ∈ s.timers ∨ (x ∉ s.stopped ∧ x ∈ s.started ∧ (blk bs x).kind = .timer)) := by
   unfold stopSync at hx; simp only [] at hx
   simp only [List.mem_filter, bne_iff_ne, ne_eq] at hx
   refine ⟨hx.2, ?_⟩
   have hx := hx.1
   split at hx
-  · next hk =>
-    simp only [Bool.and_eq_true, beq_iff_eq] at hk
-    split at hx
+  · split at hx
     · next j hj =>
-      rcases arm_mem bs s j x hx with h | ⟨rfl, h2, h3⟩
+      rcases arm_mem bs s j x hx with h | ⟨rfl, h2, h3, h4⟩
       · exact .inl h
-      · exact .inr ⟨h3, hk.1, hj, h2⟩
+      · exact .inr ⟨h4, h3, h2⟩
     · exact .inl hx
   · exact .inl hx
 
 /-- a timer handle that is pending after the synchronous set was stopped belongs to a block
-    outside the set: it was pending before, or it was armed by the stop_data of a block of the
-    set while its own block was not stopped -/
+    outside the set: it was pending before, or it was armed for a started, not yet stopped
+    timer block -/
 theorem stopSyncAll_timers (bs : List Blk) (s : CState) (os : List Nat) (x : Nat)
     (hx : x ∈ (stopSyncAll bs s os).1.timers) :
-    x ∉ os ∧ (x ∈ s.timers ∨ (x ∉ s.stopped ∧ ∃ k ∈ os, (blk bs k).kind = .outf ∧
-      (blk bs k).onSuccess = some x ∧ (blk bs x).kind = .timer)) := by
+    x ∉ os ∧ (x ∈ s.timers ∨ (x ∉ s.stopped ∧ x ∈ s.started ∧ (blk bs x).kind = .timer)) := by
   induction os generalizing s with
   | nil => exact ⟨by simp, .inl hx⟩
   | cons k ks ih =>
     unfold stopSyncAll at hx
     obtain ⟨h1, h2⟩ := ih _ hx
-    rw [stopSync_stopped] at h2
-    rcases h2 with h2 | ⟨h2, k', hk', h3⟩
-    · obtain ⟨hne, h4⟩ := stopSync_timers bs s k x h2
-      refine ⟨by simp [h1, hne], ?_⟩
-      rcases h4 with h4 | ⟨h4, h5, h6, h7⟩
-      · exact .inl h4
-      · exact .inr ⟨h4, k, by simp, h5, h6, h7⟩
+    rw [stopSync_stopped, stopSync_started] at h2
+    rcases h2 with h2 | ⟨h2, h3, h4⟩
+    · obtain ⟨hne, h5⟩ := stopSync_timers bs s k x h2
+      exact ⟨by simp [h1, hne], h5⟩
     · simp only [List.mem_cons, not_or] at h2
-      exact ⟨by simp [h1, h2.1], .inr ⟨h2.2, k', by simp [hk'], h3⟩⟩
+      exact ⟨by simp [h1, h2.1], .inr ⟨h2.2, h3, h4⟩⟩
 
 /-! ### the whole run -/
 
@@ -423,7 +443,7 @@ theorem plan_puts (c : Cfg) : ∃ ks : List Nat, (plan c).puts = ks.map (Ev.out 
   · simpa using hk
   · simp at hk
 theorem plan_timers (c : Cfg) : ∃ pass2 ph, (plan c).timers =
-    (armAll c.blocks { timers := initTimers c.blocks (plan c).started pass2, stopped := [] }
+    (armAll c.blocks { timers := initTimers c.blocks (plan c).started pass2, stopped := [], started := (plan c).started }
       (putBlocksOf c.blocks (plan c).started ph)).timers := ⟨_, _, rfl⟩
 
 theorem puts_evs (ks : List Nat) : stops (ks.map (Ev.out · false)) = [] ∧
@@ -434,13 +454,13 @@ theorem puts_evs (ks : List Nat) : stops (ks.map (Ev.out · false)) = [] ∧
 structure FinishSpec (c : Cfg) (p : Plan) (r : Result) : Prop where
   permA : c.oa.Perm (setA c.blocks p.started)
   permS : c.os.Perm (setS c.blocks p.started)
-  trace : r.trace = p.startEvs ++ p.puts ++ (stopSblocks c.blocks p.failed p.inited p.timers c.oa c.os).trace
+  trace : r.trace = p.startEvs ++ p.puts ++ (stopSblocks c.blocks p.failed p.inited p.started p.timers c.oa c.os).trace
   started : r.started = p.started
-  endTime : r.endTime = p.termTime + (stopSblocks c.blocks p.failed p.inited p.timers c.oa c.os).dur
+  endTime : r.endTime = p.termTime + (stopSblocks c.blocks p.failed p.inited p.started p.timers c.oa c.os).dur
   termTime : r.termTime = p.termTime
   tasks : r.tasks = ((blockTasks c.blocks p.started p.failed ++ (if p.helper then [Task.helper] else [])).filter
       fun t => !t.cleanedBy c.oa).filter (· != Task.helper)
-  timers : r.timers = (stopSblocks c.blocks p.failed p.inited p.timers c.oa c.os).st.timers
+  timers : r.timers = (stopSblocks c.blocks p.failed p.inited p.started p.timers c.oa c.os).st.timers
   error : r.error.isSome = true
   simDone : r.simDone = true
 
